@@ -1080,3 +1080,47 @@ Proof.
   assert (W : Forall comp_wf l) by (eapply Forall_impl; [|exact G]; apply good_name_wf).
   rewrite repo_components_join by auto. split; auto using join_valid.
 Qed.
+
+(** ** [normalize_path] is idempotent (so "normalized base" = "an output of normalize_path") *)
+Inductive stk2 : list comp -> Prop :=
+| s2_nil : stk2 []
+| s2_root : stk2 [Root]
+| s2_parent s : stk2 s -> match s with Normal _ :: _ => False | _ => True end ->
+                stk2 (ParentDir :: s)
+| s2_normal n s : stk2 s -> stk2 (Normal n :: s).
+
+Lemma norm_step_stk2 stk c : stk2 stk -> stk2 (norm_step stk c).
+Proof.
+  intros H. destruct c; cbn.
+  - constructor.
+  - exact H.
+  - destruct stk as [|[| | |n] t]; try (constructor; [exact H|exact I]). inversion H; auto.
+  - constructor; auto.
+Qed.
+
+Lemma norm_fold_stk2 l stk : stk2 stk -> stk2 (fold_left norm_step l stk).
+Proof.
+  revert stk; induction l as [|c l IH]; intros stk H; cbn; auto. apply IH, norm_step_stk2, H.
+Qed.
+
+Lemma renormalize_stack s : stk2 s -> fold_left norm_step (rev s) [] = s.
+Proof.
+  induction 1 as [| |s H IH Hc|n s H IH]; cbn [rev].
+  - reflexivity.
+  - reflexivity.
+  - rewrite fold_left_app, IH. cbn. destruct s as [|[| | |n] t]; try reflexivity. contradiction.
+  - rewrite fold_left_app, IH. reflexivity.
+Qed.
+
+Lemma normalize_comps_idem l : normalize_comps (normalize_comps l) = normalize_comps l.
+Proof.
+  unfold normalize_comps at 2 3.
+  pose proof (norm_fold_stk2 l [] s2_nil) as H.
+  destruct (rev (fold_left norm_step l [])) as [|c r] eqn:E; [reflexivity|].
+  unfold normalize_comps. rewrite <- E, renormalize_stack by exact H. rewrite E. reflexivity.
+Qed.
+
+Lemma normalize_path_idem s : normalize_path (normalize_path s) = normalize_path s.
+Proof.
+  unfold normalize_path at 1. rewrite components_normalize_path, normalize_comps_idem. reflexivity.
+Qed.
